@@ -241,8 +241,8 @@ def rule_carried(rep, sv, name):
 
     def callee_is_copy(c):
         from .common import callee_path
-        from .c08 import IDP
-        return callee_path(c) == IDP
+        from .c08 import is_idp
+        return is_idp(callee_path(c))
 
     def expr(e, st):
         """returns (state_after, falls_through)"""
